@@ -8,7 +8,7 @@ RULE = ("tm: histories of schedule/sleep_until/get_expired/remove/cancel/cancel(
         "manual mode with synthetic integer time points (equal, past, negative), idents from a small pool incl. 0 and "
         "duplicates, cancels aimed at top / non-top / absent / already cancelled / already expired ids, get_expired at "
         "non-decreasing and occasionally decreasing `now`, heaps up to ~45 entries (sift paths of depth >= 4), every case "
-        "closed by the destructor; plus a malformed stream. A tm case is non-trivial when the model reports at least one "
+        "closed by the destructor; plus EVERY history of length <= 3 (quick) / <= 5 (thorough; plus length 6 over a 7-letter sub-alphabet) over a 10-letter alphabet (2 idents x 2 time points, 3 clock readings, cancel/cancel(e)/remove) that starts with a schedule; plus a malformed stream. A tm case is non-trivial when the model reports at least one "
         "completion (expiry, remove or cancel = true) and the array reached >= 3 slots; tiv/tst/tth cases are non-trivial "
         "when they contain a stop request / >= 2 coroutines / any accepted op. distinct = distinct (engine, op list)")
 SCOPE = ("scheduler::schedule, sleep_until, get_expired(_lk), remove, cancel(id[,e]), pop_item, ~scheduler with libstdc++ "
@@ -123,6 +123,31 @@ def boundary_tm():
     return out
 
 
+def exhaustive_tm(maxlen, small=False):
+    """every history of length <= maxlen over a 10-letter alphabet that starts with a schedule: two idents, two time points
+    (so equal deadlines, duplicate idents, past deadlines, cancel-after-expiry, repeated cancel, cancel of top / non-top /
+    emptied all occur), three clock readings, cancel / remove; each closed by the destructor"""
+    import itertools
+    alpha = [("s", 1, 1), ("s", 1, 2), ("s", 2, 1), ("s", 2, 2), ("e", 0), ("e", 1), ("e", 2), ("c", 1), ("c", 2), ("r", 1)]
+    if small:   # 7 letters, only words of exactly maxlen
+        alpha = [("s", 1, 1), ("s", 1, 2), ("s", 2, 2), ("e", 1), ("e", 2), ("c", 1), ("c", 2)]
+    out = []
+    for n in range(maxlen if small else 1, maxlen + 1):
+        for w in itertools.product(range(len(alpha)), repeat=n):
+            if alpha[w[0]][0] != "s":
+                continue
+            ops = []; pid = 0
+            for k in w:
+                a = alpha[k]
+                if a[0] == "s":
+                    ops.append([1 + (pid & 1), pid, a[1], a[2]]); pid += 1
+                elif a[0] == "e": ops.append([3, a[1]])
+                elif a[0] == "c": ops.append([5 if (len(ops) & 1) else 6, a[1]] + ([] if (len(ops) & 1) else [2]))
+                else: ops.append([4, a[1]])
+            out.append(close_case(Case("tm", "%s%d_%s" % ("y" if small else "x", n, "".join("%x" % k for k in w)), ops)))
+    return out
+
+
 def malformed_tm(rng, k):
     out = []
     pool = [[1, 0, 1], [1, -1, 1, 5], [1, 200, 1, 5], [1, 0, -1, 5], [2, 0, 1, 5, 6], [3], [3, 1, 2], [4, -2], [5], [6, 1, 0],
@@ -170,14 +195,18 @@ def gen_tth(rng, n):
     ops = [[1, 0, 20], [1, 30000, 20], [1, 10, 40]]
     for _ in range(n):
         ops.append([1, rng.choice([0, 0, 20000, 60000, 5]), rng.choice([10, 25, 40])])
-    return [Case("tth", "th0", ops[:3]), Case("tth", "th1", ops[3:] + [[1, 5]])]
+    race = [Case("tth", "thr0", [[2, 0]]), Case("tth", "thr1", [[2, 30000]]), Case("tth", "thr2", [[2, 0], [2, 60000], [2, 5]])]
+    return [Case("tth", "th0", ops[:3]), Case("tth", "th1", ops[3:] + [[1, 5]])] + race
 
 
 def gen(seed, tier):
     rng = random.Random(seed * 104729 + 12)
     quick = tier == "quick"
     cases = boundary_tm()
-    n = 330 if quick else 4000
+    cases += exhaustive_tm(3 if quick else 5)
+    if not quick:
+        cases += exhaustive_tm(6, small=True)
+    n = 330 if quick else 3000
     for i in range(n):
         shape = rng.random()
         if shape < 0.15:
@@ -213,6 +242,26 @@ def nontrivial(case, model_obs):
     return any(l.split()[0] == "0" for l in model_obs if l)
 
 
+def _api_part(line):
+    """tm observation without the array dump: st r1 r2 k (pid code)*k | n (tp pid id)*n  ->  the part before n"""
+    a = line.split()
+    if len(a) >= 4 and a[0] == "0":
+        try:
+            return a[:4 + 2 * int(a[3])]
+        except ValueError:
+            return a
+    return a
+
+
+def obs_equal(case, model_obs, impl_obs):
+    """correspondence on API-visible observables: results, which futures changed and how.  The _scheduled array
+    (layout, number of lingering emptied slots) is a diagnostic: it is judged by the oracle (heap order + live
+    entries = pending multiset), not compared with the model's array."""
+    if case.engine != "tm":
+        return model_obs == impl_obs
+    return len(model_obs) == len(impl_obs) and all(_api_part(m) == _api_part(i) for m, i in zip(model_obs, impl_obs))
+
+
 def signature(case, impl_obs, model_obs):
     last = impl_obs[-1] if impl_obs else ""
     if last.startswith("CRASH"):
@@ -226,4 +275,4 @@ def signature(case, impl_obs, model_obs):
     return "%s:%s" % (case.engine, kind)
 
 
-PARTS = [{"name": "seq_timer", "harness": "seq_timer.cpp", "gen": gen, "timeout_case": 20}]
+PARTS = [{"name": "seq_timer", "harness": "seq_timer.cpp", "gen": gen, "timeout_case": 8}]
